@@ -5,15 +5,18 @@
    `flush_out v ops ord` = what a Flush emits after the history `ops` (ord = iteration order of the pending set);
    `net ops` = the datastore / upstream state the history leaves (fold); `expected_tiers D e` = the specification.
 
-   WHAT IS NOT PROVED: the refinement "for the fixed variant, every update emitted after any history equals
-   expected_tiers of the net state" (needs the representation invariant of the sorter model carried through
-   UpdatePolicy's branches; the ingredients - strict total orders, set behaviour of the btree model, uniqueness
-   of the sorted enumeration - are proved below).  That statement is checked on every run against the real code's
-   outputs by the oracle `ok_history`; the theorems marked _partial are therefore about the specification function
-   the oracle compares with, not yet about the model. *)
+   MAIN RESULT (c03_emitted_is_expected): for the repaired OnPolicyMatchStopped (v_fixed = true), after ANY
+   history - no hypothesis at all on the match callbacks: starts and stops may repeat, arrive for unknown policies
+   or endpoints, in any order (the alternation contract C07 proves of the real label index is not even needed; the
+   match relation of the net state is simply the set of pairs started and not stopped since) - every update an
+   in-sync Flush emits equals expected_tiers of the net state, up to the default action of tiers that do not exist.
+   Hypotheses: op_wf (policy keys of PolUpd events without '/', only for the pinned joined-string tie-break) and
+   order_ok (the sorter's tie-break orders the policy keys of the net state like (name, namespace, kind): always
+   true for the name-proper tie-break; for the pinned one this is exactly the complement of known finding
+   tiebreak-joined-string). *)
 From Coq Require Import List NArith ZArith Bool Sorted.
 From Verif.Common Require Import Labels.
-From Verif.C03 Require Import Model Spec Witness Order BT Split Resolver SpecProps.
+From Verif.C03 Require Import Model Spec Witness Order BT Split Resolver SpecProps Sorter Refine Char Main.
 Import ListNotations.
 Open Scope N_scope.
 
@@ -151,36 +154,98 @@ Proof.
 Qed.
 Print Assumptions c03_direction_split_meaning.
 
-(* ---------------------------------------------------------------- the specification function (see header) *)
+(* ---------------------------------------------------------------- MAIN: what the repaired model emits *)
+
+(* representation invariant of the sorter model (sorted lists = the sets recorded in the maps = abstract maps P, T)
+   is kept by every branch of UpdatePolicy and of the tier update *)
+Theorem c03_sorter_invariant : forall v s P T,
+  srep v s P T ->
+  (forall k m, key_wf v k -> srep v (fst (sorter_update_policy v s k (Some m))) (updP P k (Some m)) T
+                            /\ (snd (sorter_update_policy v s k (Some m)) = false -> P k = Some m))
+  /\ (forall k, srep v (fst (sorter_update_policy v s k None)) (updP P k None) T
+              /\ (snd (sorter_update_policy v s k None) = false -> P k = None))
+  /\ (forall n val, srep v (sorter_tier_update s n val) P (updT T n val))
+  /\ (forall k, has_policy s k = true <-> exists m, P k = Some m).
+Proof.
+  exact (fun v s P T R =>
+    conj (fun k m W => srep_update_some v s P T k m R W)
+   (conj (fun k => srep_update_none v s P T k R)
+   (conj (fun n val => srep_tier_update v s P T n val R)
+         (fun k => has_policy_iff v s P T k R)))).
+Qed.
+Print Assumptions c03_sorter_invariant.
+
+(* resolver invariant after every history: the sorter holds only active known policies with their current
+   metadata, every active known policy is in the sorter or pending, every pending policy is active *)
+Theorem c03_resolver_invariant : forall v ops, v_fixed v = true -> Forall (op_wf v) ops ->
+  exists P, rinv v (state_after v ops) (net ops) P.
+Proof. exact rinv_run. Qed.
+Print Assumptions c03_resolver_invariant.
+
+(* every update emitted by an in-sync Flush after any history is expected_tiers of the net state *)
+Theorem c03_emitted_is_expected : forall v ops ord e ts,
+  v_fixed v = true -> Forall (op_wf v) ops -> order_ok v (net ops) ->
+  In (e, Some ts) (flush_out v ops ord) ->
+  blank_missing (net ops) ts = expected_tiers (net ops) e.
+Proof. exact emitted_is_expected. Qed.
+Print Assumptions c03_emitted_is_expected.
+
+(* the hypotheses are met: always by the name-proper tie-break ... *)
+Theorem c03_hypotheses_name_tiebreak : forall v ops, v_lexname v = true ->
+  Forall (op_wf v) ops /\ order_ok v (net ops).
+Proof.
+  exact (fun v ops H => conj (proj2 (Forall_forall (op_wf v) ops)
+                                (fun o _ => match o as o0 return op_wf v o0 with
+                                            | PolUpd k _ => or_introl H
+                                            | _ => I
+                                            end))
+                             (order_ok_lexname v (net ops) H)).
+Qed.
+Print Assumptions c03_hypotheses_name_tiebreak.
+(* ... and by the pinned one on a non-trivial history *)
+Example c03_hypotheses_inhabited_pinned :
+  Forall (op_wf (mkVariant true false)) stale_history /\ order_ok (mkVariant true false) (net stale_history).
+Proof. exact stale_history_hyps. Qed.
 
 (* exactly the policies of the datastore that match the endpoint, each with the metadata it carries *)
-Theorem c03_exact_set_partial : forall ops e k m,
-  let D := net ops in
-  (exists t, In t (expected_tiers D e) /\ In (k, m) (to_pols t)) <->
-  (exists pv, In (k, pv) (d_pols D) /\ m = extract_meta pv /\ matched D k e = true).
-Proof. exact expected_exact_set. Qed.
-Print Assumptions c03_exact_set_partial.
+Theorem c03_exact_set : forall v ops ord e ts,
+  v_fixed v = true -> Forall (op_wf v) ops -> order_ok v (net ops) ->
+  In (e, Some ts) (flush_out v ops ord) ->
+  forall k m,
+  (exists t, In t ts /\ In (k, m) (to_pols t)) <->
+  (exists pv, In (k, pv) (d_pols (net ops)) /\ m = extract_meta pv /\ matched (net ops) k e = true).
+Proof. exact emitted_exact_set. Qed.
+Print Assumptions c03_exact_set.
 
-(* grouped by tier *)
-Theorem c03_grouped_by_tier_partial : forall ops e t k m,
-  In t (expected_tiers (net ops) e) -> In (k, m) (to_pols t) -> m_tier m = to_name t.
-Proof. exact expected_grouped. Qed.
-Print Assumptions c03_grouped_by_tier_partial.
+(* grouped by tier; no policy twice, no tier twice, no tier empty *)
+Theorem c03_grouped_by_tier : forall v ops ord e ts,
+  v_fixed v = true -> Forall (op_wf v) ops -> order_ok v (net ops) ->
+  In (e, Some ts) (flush_out v ops ord) ->
+  (forall t k m, In t ts -> In (k, m) (to_pols t) -> m_tier m = to_name t)
+  /\ (forall t, In t ts -> NoDup (to_pols t) /\ to_pols t <> [])
+  /\ NoDup (map to_name ts).
+Proof. exact emitted_grouped_once. Qed.
+Print Assumptions c03_grouped_by_tier.
 
-(* tiers strictly ascending: existing before missing, order (unset last), name; fields from the datastore *)
-Theorem c03_tier_order_partial : forall ops e,
+(* tiers strictly ascending: existing before missing, order (unset last), name; order and default action are
+   those of the datastore's tier *)
+Theorem c03_tier_order : forall v ops ord e ts,
+  v_fixed v = true -> Forall (op_wf v) ops -> order_ok v (net ops) ->
+  In (e, Some ts) (flush_out v ops ord) ->
   let D := net ops in
-  SSb tier_before (map (fun t => tier_key D (to_name t)) (expected_tiers D e))
-  /\ forall t, In t (expected_tiers D e) ->
-       to_order t = tk_order (tier_key D (to_name t)) /\ to_action t = tier_action D (to_name t).
-Proof. exact (fun ops e => conj (expected_tier_order ops e) (expected_tier_fields ops e)). Qed.
-Print Assumptions c03_tier_order_partial.
+  SSb tier_before (map (fun t => tier_key D (to_name t)) ts)
+  /\ forall t, In t ts ->
+       to_order t = tk_order (tier_key D (to_name t))
+       /\ (forall tv, alookup bytes_eqb (to_name t) (d_tiers D) = Some tv -> to_action t = tv_action tv).
+Proof. exact emitted_tier_order. Qed.
+Print Assumptions c03_tier_order.
 
 (* policies strictly ascending inside a tier: order (unset last), name, namespace, kind *)
-Theorem c03_policy_order_partial : forall ops e t,
-  In t (expected_tiers (net ops) e) -> SSb pol_before (to_pols t).
-Proof. exact expected_policy_order. Qed.
-Print Assumptions c03_policy_order_partial.
+Theorem c03_policy_order : forall v ops ord e ts t,
+  v_fixed v = true -> Forall (op_wf v) ops -> order_ok v (net ops) ->
+  In (e, Some ts) (flush_out v ops ord) -> In t ts -> SSb pol_before (to_pols t).
+Proof. exact emitted_policy_order. Qed.
+Print Assumptions c03_policy_order.
 
 (* ---------------------------------------------------------------- the defect *)
 
